@@ -195,6 +195,18 @@ def run(ck):
         cases.append({'kind': 'case', 'cfg': c, 'seed': rng.randrange(1 << 30), 't0': L.fhex(t0), 'Tend': L.fhex(Tend),
                       'scale': rng.choice([1.0, 0.5, 1.25]), 't_other': L.fhex(t_other),
                       'T_other': L.fhex(t_other + rng.randint(1, c['P']) * c['dt'])})
+    # sweep-dependent preconditioners with several sweeps per iteration, several steps and a partially filled last block
+    # (the sweepers' QI tables are state that survives a run); the last one is the Gauss-Seidel variant
+    nk = 6 if thorough else 3
+    for i in range(nk):
+        c = L.gen_config(rng, fixed_step=True, allow_random=False, family=rng.choice(['sdc_test', 'sdc_heat', 'sdc_adv', 'sdc_vdp']))
+        gs = (i == nk - 1)
+        c.update(levels=1, QI=L.KDEP_QI[(i + ck.seed) % len(L.KDEP_QI)], nsweeps=rng.choice([2, 3]), P=rng.choice([2, 3, 4]), mssdc_jac=not gs, ccs=[],
+                 hooks=sorted(set(c['hooks']) - {'LogEmbeddedErrorEstimate', 'LogExtrapolationErrorEstimate'}), maxiter=rng.choice([2, 3]), fixed_step=True)
+        t0 = rng.choice(L.T0S)
+        Tend = t0 + (rng.randint(1, 2) * c['P'] + rng.randint(1, c['P'] - 1)) * c['dt']
+        cases.append({'kind': 'case', 'cfg': c, 'seed': rng.randrange(1 << 30), 't0': L.fhex(t0), 'Tend': L.fhex(Tend), 'scale': rng.choice([1.0, 0.5]),
+                      't_other': L.fhex(t0 + 0.25), 'T_other': L.fhex(t0 + 0.25 + rng.randint(1, c['P']) * c['dt'])})
     ninter = 12 if thorough else 4
     inters = []
     alone = []
@@ -302,6 +314,10 @@ def run(ck):
             report('run() modified the caller\'s u0', {'kind': 'u0-modified'}, {'input': inp})
         uses_rng = c['guess'] == 'random' and not c['sweeper'].startswith('RK:')
         has_extra = 'EstimateExtrapolationErrorNonMPI' in c['ccs']
+        # sweep-dependent QI + Gauss-Seidel MSSDC: it_coarse never calls updateVariableCoeffs, it_fine (used when a
+        # single step is left in a partially filled block) does and leaves QI(k = nsweeps) behind
+        kdep_gs = (c.get('QI') in L.KDEP_QI and c.get('nsweeps', 1) > 1 and c['P'] > 1 and not c['mssdc_jac'] and c['sweeper'] == 'generic_implicit'
+                   and c['levels'] == 1)
         # --- fresh-controller repeats
         for name in ('fresh', 'fresh_shared_dicts'):
             if not rec_equal(base, r[name]):
@@ -316,11 +332,13 @@ def run(ck):
             if (uses_rng or has_extra) and repaired_ok:
                 # identical again once the RNG is re-seeded / the estimator storage re-initialised by hand
                 cause = 'EstimateExtrapolationError-buffers' if has_extra and (r[name]['error'] or not uses_rng) else 'sweeper-rng-not-reseeded'
+            elif kdep_gs and repaired_ok:
+                cause = 'variable-QI-stale-after-partial-block'     # identical again once the QI tables are rebuilt by hand
             report('run() repeated on the same controller (%s) differs from its first execution [%s]' % (name, cause),
                    {'kind': 'same-controller-repeat', 'cause': cause} if cause != 'unexplained' else
                    {'kind': 'same-controller-repeat', 'cause': cause, 'variant': name},
                    {'input': inp, 'variant': name, 'diff': describe_diff(base, r[name])})
-        if (uses_rng or has_extra) and 'same_repaired' in r and not repaired_ok:
+        if 'same_repaired' in r and not repaired_ok:
             report('same-controller repeat differs even after re-seeding the sweeper RNG / resetting estimator storage by hand',
                    {'kind': 'same-controller-repeat', 'cause': 'unexplained', 'variant': 'same_repaired'},
                    {'input': inp, 'diff': describe_diff(base, r['same_repaired'])})
@@ -339,6 +357,8 @@ def run(ck):
                 cause = 'EstimateExtrapolationError-never-active-step'      # the FRESH controller raises (status.slot None), the used one does not
             if cause == 'unexplained' and (uses_rng or has_extra) and repaired_ok:
                 cause = 'EstimateExtrapolationError-buffers' if has_extra and (oth['error'] or not uses_rng) else 'sweeper-rng-not-reseeded'
+            if cause == 'unexplained' and kdep_gs and repaired_ok:
+                cause = 'variable-QI-stale-after-partial-block'
             inp2 = dict(inp, t_other=sc['t_other'], T_other=sc['T_other'])
             report('a run on a previously used controller differs from the same run on a fresh controller [%s]' % cause,
                    {'kind': 'reentrant', 'cause': cause}, {'input': inp2, 'diff': describe_diff(oth, othf)})
